@@ -128,7 +128,11 @@ def r08_3(ctx) -> None:
     rets = [r.value for r in fn_nodes(hm) if isinstance(r, ast.Return)]
     ok = len(rets) == 1
     t = Tm.of(hm, rets[0]) if ok else None
-    want = ("SLICE", ("CALL", "digest", (("CALL", "new", (L("key"), C(L("aad"), L("iv"), L("ciphertext"), ("U64BITS", L("aad"))), L("self.hash_alg"))),)), None, L("self.key_len"))
+    pp = hm.pos_params  # (self, ciphertext, aad, iv, key) - by position: parameters of a private method may be renamed
+    if len(pp) != 5:
+        raise AnalysisError("CBCHS2EncModel._hmac no longer takes (ciphertext, aad, iv, key)")
+    sn_, p_ct, p_aad, p_iv, p_key = pp
+    want = ("SLICE", ("CALL", "digest", (("CALL", "new", (L(p_key), C(L(p_aad), L(p_iv), L(p_ct), ("U64BITS", L(p_aad))), L(f"{sn_}.hash_alg"))),)), None, L(f"{sn_}.key_len"))
     ok = ok and match(t, want)
     ctx.check(ok, "R08.3", hm, hm.node, hm.short, f"CBC-HMAC tag is not HMAC(MAC_KEY, AAD || IV || ciphertext || AL)[:key_len] with AL the 64-bit big-endian bit length of the AAD: {show(t) if t else ''}",
               show(t) if t else "", construct="CBC-HMAC MAC input and truncation")
